@@ -20,7 +20,7 @@ LEVEL_TEXT = (
     "any single required input raises MissingInputError naming it with an empty call log and an empty event log; bind removes a name from "
     "required and lists it as bound, unbind restores the spec."
 )
-LEVEL_NOTE = "bindings are placed only on names the spec itself lists (required, optional, entry-point parameters); a run-time select is judged against the spec of the equivalently selected graph"
+LEVEL_NOTE = "bindings are placed only on names the spec itself lists (required, optional, entry-point parameters); a run-time select is judged against the spec of the equivalently selected graph; also: falsy bound values, history independence of the reported spec (pre-used parents), run-time select overriding a graph-level select ('**' / another output), inner bindings shared with outer nodes"
 RULE = "programs x bind subsets (<=2 names) x graph-level select x with_entrypoint x run-time select x (full set per entry point, each single omission); distinct_nontrivial = distinct configurations with >=1 bind/select/entry point"
 ASSUMPTIONS = ["loop-carried inputs are integers, all other inputs opaque tokens", "an 'input-related failure' is MissingInputError, ValueError from input validation, or KeyError 'No value for input' during the run"]
 
